@@ -316,11 +316,37 @@ def oracle_fields(case: Dict[str, Any], obs: Dict[str, Any]) -> List[Dict[str, A
     return out
 
 
+def oracle_extract(case: Dict[str, Any], obs: Dict[str, Any]) -> List[Dict[str, Any]]:
+    """C09 on the variables a class / module docstring documents: the text of @ivar/@cvar/@var x is the docstring of the
+    attribute x (and of nothing else), the text of @type x its type, or the field is reported."""
+    out = []
+    fields = case['fields']
+    reported = {r[0] for r in obs['reports']}
+    for i, (tag, arg) in enumerate(fields):
+        if tag not in ('ivar', 'cvar', 'var', 'type'):
+            continue
+        slot = 2 if tag == 'type' else 1
+        holders = [a for a in obs['attrs'] if a[1] == i or a[2] == i]
+        if arg is None:
+            if i not in reported:
+                out.append({'class': 'lost', 'what': '@%s without a name (#%d) is not reported' % (tag, i)})
+            continue
+        if len(holders) == 1 and holders[0][0] == arg and holders[0][slot] == i and holders[0][3 - slot] != i:
+            continue
+        if i in reported:
+            continue
+        later = any(t in ('ivar', 'cvar', 'var', 'type') and a == arg and (t == 'type') == (tag == 'type') for t, a in fields[i + 1:])
+        cls = 'attr-replaced' if (later and not holders) else ('lost' if not holders else 'misplaced')
+        out.append({'class': cls, 'what': 'field #%d @%s %s: its text is on %s (expected: the %s of %r), no warning (%s)'
+                    % (i, tag, arg, [h[0] for h in holders] or 'no attribute', 'type' if slot == 2 else 'docstring', arg, cls)})
+    return out
+
+
 # ============================================================================================ the check
 class Check(PropertyCheck):
     id = 'C09'
     props_module = 'Props.C09'
-    models = {'segments': 'XSegments.v', 'fields': 'XFields.v', 'epyinline': 'XEpyInline.v'}
+    models = {'segments': 'XSegments.v', 'fields': 'XFields.v', 'epyinline': 'XEpyInline.v', 'extract': 'XExtractFields.v', 'rstfields': 'XRstFields.v', 'epystruct': 'XEpyStruct.v'}
     needs_gen = True
     gen_modules = ['gen_c09']
     rule = ('(A) code/doctest bodies: every string of <= N characters over a 10-letter alphabet of the characters the '
@@ -360,12 +386,17 @@ class Check(PropertyCheck):
                  'with the real functions (real regex spans fed to the model, contract checked on them), and a structure-aware '
                  'document generator rendered through format_docstring in epytext / reST / google / numpy / plaintext with the '
                  'property as oracle (word sequence of the description, verbatim blocks, every field under its entry or warned).'),
-        'note': ('Partial: the block structurers (epytext _tokenize/parse, docutils, napoleon), node2stan and extract_fields are '
-                 'not modelled -- they are covered by the document oracle only; epytext._colorize is modelled (Model/EpyInline.v, '
-                 'tree-for-tree correspondence) and proved to show well-formed markup as written for regions, literal braces, '
-                 'escapes and symbols (C09_epytext_inline_conserves_partial) but not for L{}/U{} links. The guard of C09_fields_routed_partial over-approximates class (d) (all parameter duplicates). '
-                 'Trusted: Coq kernel, gen_c09.py, the finditer contracts of Spec/Conserve.v (re-checked on every span the real '
-                 're returned), extraction + driver, the Python harness. Known findings on the unchanged tree: see known_findings/C09.json.'),
+        'note': ('Also proved since the first version: extract_fields lands every @ivar/@cvar/@var/@type on exactly one '
+                 'attribute or reports it (C09_extract_fields_routed_partial, guard = replaced by a later field for the same '
+                 'name and slot); the reST field splitter can only keep a field as it is, split a well-formed consolidated '
+                 'bullet / definition list item by item keeping all of its text, or report (C09_rst_field_split, _conserves); '
+                 'the epytext block structurer drops no token except a paragraph it reports as improperly indented '
+                 '(C09_epytext_structure_keeps_tokens; it can raise TypeError, C09_epytext_structure_crash_witness); the inline '
+                 'coloriser theorem covers links under a contract on its two regexes (C09_epytext_inline_conserves); guard '
+                 'class (d) of C09_fields_routed_partial is exact. Not modelled (document oracle only): the line tokenizers '
+                 '(epytext _tokenize, docutils parser, napoleon), node2stan. Trusted: Coq kernel, gen_c09.py, the regex oracle '
+                 'contracts (re-checked on what the real regexes returned), extraction + driver, the Python harness. Known '
+                 'findings on the unchanged tree: see known_findings/C09.json.'),
         'technique': 'Coq proof (conservation by induction over span lists; counting invariant over the field fold) + regenerated tables + exhaustive/random correspondence + generated-document oracle',
     }
 
@@ -480,6 +511,200 @@ class Check(PropertyCheck):
         self.nontrivial_fields = len(nt)
         for c in cases[-2:]:
             self.sample({'fields': c})
+        return out
+
+    # ------------------------------------------------------------------ G. the epytext block structurer
+    def check_epystruct(self) -> List[Violation]:
+        import random
+        out: List[Violation] = []
+        n = 500 if self.tier == 'quick' else 15000
+        cases = ["para\n\n  - item\n    more\n  - item2\n\n      1. sub\n      2. sub2\n\npara2\n\nHead\n====\n\ntext::\n\n   lit\n\n>>> 1\n1\n\n@param x: y\n@return: z\n",
+                 " bad\nindent\n  worse\n", "Head\n====\nSub\n---\ntext\n\nHead2\n=====\n", "- top list\n", "@field: x\n\npara after\n",
+                 "  1. a\n  3. b\n  4. c\n", "p\n    - a\n  - b\n", "", "x", "Sub\n---\n", "  - a\n\n    Head\n    ====\n", "@a: x\n  - l\n@b: y\n", "- z\n\nTopic\n=====\ntext"]
+        base = []
+        for _ in range(n):
+            base.append(G.serialise(G.gen_doc(random.Random(self.rng.randrange(1 << 30)), 'epytext'), 'epytext'))
+        cases += base
+
+        def mutate(s: str) -> str:
+            lines = s.split('\n')
+            for _ in range(self.rng.randint(1, 3)):
+                k = self.rng.randrange(len(lines))
+                r = self.rng.random()
+                if r < 0.4:
+                    lines[k] = ' ' * self.rng.randint(0, 6) + lines[k].lstrip()
+                elif r < 0.6:
+                    lines.insert(k, '')
+                elif r < 0.8:
+                    lines.insert(k, self.rng.choice(['Title', '=====', '-----', '~~~', '@x: y', '- z', '3. q', '>>> 1', '  @y: z']))
+                else:
+                    del lines[k]
+                if not lines:
+                    lines = ['']
+            return '\n'.join(lines)
+        cases += [mutate(c) for c in base]
+        obs = lib.run_impl_worker('c09_epystruct.py', cases, jobs=16)
+        mod = self.model('epystruct', [enc([[t[0], [t[1]] if t[1] is not None else [], t[2], t[3], t[4], t[5], t[6]]
+                                            for t in o['tokens']]) for o in obs])
+
+        def canon(nd: Any) -> Any:
+            return [0, nd[1]] if nd[0] == 0 else [1, nd[1]] + [canon(k) for k in nd[3:]]
+
+        def preorder(nd: Any) -> List[int]:
+            if nd[0] == 0:
+                return [nd[1]]
+            return ([4] if nd[1] in (5, 6) else []) + [x for k in nd[2:] for x in preorder(k)]
+        ncorr = norac = 0
+        for c, o, m in zip(cases, obs, mod):
+            if o.get('exc'):
+                mm = dec(m)
+                typeerr = o['exc'].startswith("TypeError: '<' not supported between instances of 'int' and 'NoneType'")
+                if typeerr and mm[0] == 1 and mm[2] == [1]:
+                    # the model crashes on the same tokens, at the same comparison (indent < None)
+                    self.count('epystruct_typeerror')
+                    out.append(Violation('oracle', 'epytext.parse raised ' + o['exc'][:120], case={'epystruct': c},
+                                         observed={'class': 'epytext-parse-typeerror'}))
+                else:
+                    out.append(Violation('oracle', 'epytext.parse raised ' + o['exc'][:300], case={'epystruct': c},
+                                         observed={'class': 'exception'}))
+                continue
+            self.count('epystruct_errors_%d' % min(len(o['errors']), 3))
+            mm = dec(m)
+            if mm[0] != 0:
+                m_tree, m_errs = None, 'crash %s' % mm[2]
+            else:
+                m_tree, m_errs = canon(mm[1]), [[e[0], e[1]] for e in mm[2]]
+            if (m_tree != o['tree'] or m_errs != o['errors']) and ncorr < 8:
+                ncorr += 1
+                out.append(Violation('correspondence', 'Model.EpyStruct and epytext.parse disagree (tree / structuring errors)',
+                                     case={'epystruct': c}, expected={'tree': m_tree, 'errors': m_errs},
+                                     observed={'tree': o['tree'], 'errors': o['errors']}))
+            # the property on the real tree: its blocks, in document order, are the tokens, in order; one may only be
+            # missing when "Improper paragraph indentation" was reported
+            if o['tree'] is not None:
+                got = preorder(o['tree'])
+                want = [t[0] for t in o['tokens']]
+                if got != want and not any(e[0] == 1 for e in o['errors']) and norac < 8:
+                    norac += 1
+                    out.append(Violation('oracle', 'epytext.parse: %d tokens, %d blocks in the tree, no indentation error reported: '
+                                         'tokens %s, tree %s' % (len(want), len(got), want, got), case={'epystruct': c},
+                                         observed={'class': 'epytext-token-dropped', 'errors': o['errors']}))
+        self.evaluations += len(cases)
+        self.stats['epystruct_cases'] = len(cases)
+        return out
+
+    # ------------------------------------------------------------------ F. the reST field splitter
+    def check_rstfields(self) -> List[Violation]:
+        out: List[Violation] = []
+        n = 1200 if self.tier == 'quick' else 30000
+        cases = list(G.RST_FIELD_CORPUS) + [G.gen_rst_fieldlist(self.rng) for _ in range(n)]
+        obs = lib.run_impl_worker('c09_rstfields.py', cases, jobs=16)
+        ins = [enc([o['in'], o['lowers']]) for o in obs]
+        mod = self.model('rstfields', ins)
+
+        def canon(nd: Any) -> Any:
+            return [0, txt(nd[1])] if nd[0] == 0 else [1, nd[1]] + [canon(k) for k in nd[2:]]
+
+        def leaves(nd: Any) -> List[str]:
+            return [nd[1]] if nd[0] == 0 else [x for k in nd[2:] for x in leaves(k)]
+        ncorr = norac = 0
+        for c, o, m in zip(cases, obs, mod):
+            if o.get('exc'):
+                out.append(Violation('oracle', 'restructuredtext.parse_docstring raised ' + o['exc'][:300], case={'rstfields': c},
+                                     observed={'class': 'exception'}))
+                continue
+            if o['nested']:
+                self.count('rstfields_nested_skipped')
+                continue
+            self.count('rstfields_errors_%d' % min(len(o['errors']), 3))
+            mm = dec(m)
+            mf = [[txt(f[0]).lower().strip(), (txt(f[1][0]).strip() if f[1] else None), [canon(x) for x in f[2]], bool(f[3])]
+                  for f in mm[0]]
+            me = [[e[0], e[1]] for e in mm[1]]
+            if (mf != o['out'] or me != o['errors']) and ncorr < 8:
+                ncorr += 1
+                out.append(Violation('correspondence', 'Model.RstFields and _SplitFieldsTranslator disagree', case={'rstfields': c},
+                                     expected={'fields': mf, 'errors': me}, observed={'fields': o['out'], 'errors': o['errors']}))
+            # the property on the real output: every Text leaf of every field body is in the body of a produced field,
+            # or is the argument of one, give or take the separator after the marked identifier
+            pool: List[str] = []
+            for tag, arg, body, newfield in o['out']:
+                if newfield:
+                    continue
+                if arg is not None:
+                    pool.append(arg)
+                for nd in body:
+                    pool += leaves(nd)
+            missing = []
+            for name, body in o['in']:
+                for nd in body:
+                    for leaf in leaves(nd):
+                        cands = [leaf, leaf.strip(), re.sub(r'^ ?[:-]\s*', '', leaf)]
+                        for cand in cands:
+                            if cand in pool:
+                                pool.remove(cand)
+                                break
+                        else:
+                            if leaf.strip(' :-') != '':
+                                missing.append(leaf)
+            if missing and norac < 8:
+                norac += 1
+                out.append(Violation('oracle', 'reST field list: the text %r of a field body is in no field that was produced '
+                                     '(errors reported: %s)' % (missing[:3], o['errors']), case={'rstfields': c},
+                                     observed={'class': 'rst-field-text-lost', 'fields': o['out']}))
+        self.evaluations += len(cases)
+        self.stats['rstfields_cases'] = len(cases)
+        return out
+
+    # ------------------------------------------------------------------ E. extract_fields
+    def extract_cases(self) -> List[Dict[str, Any]]:
+        import itertools
+        tags = ['ivar', 'cvar', 'var', 'type', 'note', 'param']
+        args = [None, 'a', 'm', 'zz']
+        atoms = [[t, a] for t in tags for a in args]
+        envs = [{'obj': 4, 'members': [['a', 0], ['m', 1]]}, {'obj': 5, 'members': [['a', 0], ['m', 1], ['K', 2]]}]
+        cases = []
+        for e in envs:
+            for n in (0, 1, 2):
+                for combo in itertools.product(atoms, repeat=n):
+                    cases.append(dict(e, fields=[list(x) for x in combo]))
+        self.stats['extract_exhaustive'] = len(cases)
+        n = 400 if self.tier == 'quick' else 20000
+        for _ in range(n):
+            members = [[nm, self.rng.randint(0, 2)] for nm in self.rng.sample(['a', 'b', 'm', 'K', 'x'], self.rng.randint(0, 4))]
+            fields = [[self.rng.choice(tags + ['ivar', 'type']), self.rng.choice(args + ['b', 'x', 'K'])]
+                      for _ in range(self.rng.randint(0, 7))]
+            cases.append({'obj': self.rng.choice([4, 5]), 'members': members, 'fields': fields})
+        self.stats['extract_random'] = n
+        return cases
+
+    def check_extract(self, cases: List[Dict[str, Any]]) -> List[Violation]:
+        out: List[Violation] = []
+        obs = lib.run_impl_worker('c09_extract.py', cases, jobs=16)
+        ins = [enc([o['before'] or [], [[t, 0 if a is None else 1, a or ''] for t, a in c['fields']]]) for c, o in zip(cases, obs)]
+        mod = self.model('extract', ins)
+        ncorr = 0
+        per_class: Dict[str, int] = {}
+        for c, o, m in zip(cases, obs, mod):
+            if o.get('exc'):
+                out.append(Violation('oracle', 'extract_fields raised ' + o['exc'][:300], case={'extract': c}, observed={'class': 'exception'}))
+                continue
+            mm = dec(m)
+            m_attrs = [[txt(a[0]), a[1][0] if a[1] else None, a[2][0] if a[2] else None, a[3][0] if a[3] else None, bool(a[4])]
+                       for a in mm[0]]
+            o_reports = [r[0] for r in o['reports']]
+            if (m_attrs != o['attrs'] or mm[1] != o_reports) and ncorr < 8:
+                ncorr += 1
+                out.append(Violation('correspondence', 'Model.ExtractFields and epydoc2stan.extract_fields disagree',
+                                     case={'extract': c}, expected={'attrs': m_attrs, 'reports': mm[1]},
+                                     observed={'attrs': o['attrs'], 'reports': o['reports']}))
+            for f in oracle_extract(c, o):
+                per_class[f['class']] = per_class.get(f['class'], 0) + 1
+                if per_class[f['class']] <= 3:
+                    out.append(Violation('oracle', f['what'], case={'extract': c}, observed=dict(f, attrs=o['attrs'], reports=o['reports'])))
+        for k, v in per_class.items():
+            self.stats['extract_oracle_' + k] = v
+        self.evaluations += len(cases)
         return out
 
     # ------------------------------------------------------------------ D. epytext inline markup
@@ -625,6 +850,9 @@ class Check(PropertyCheck):
         out += self.check_bodies(self.body_cases())
         out += self.check_fields(self.field_cases())
         out += self.check_inline(self.inline_cases())
+        out += self.check_extract(self.extract_cases())
+        out += self.check_rstfields()
+        out += self.check_epystruct()
         out += self.check_docs(self.doc_cases(600 if quick else 10000, 600 if quick else 10000))
         self.exhaustive = True
         self.stats['distinct_nontrivial'] = (self.nontrivial_bodies + self.nontrivial_fields + self.nontrivial_docs
@@ -682,6 +910,29 @@ class Check(PropertyCheck):
             if not fs:
                 print('property: holds on this input')
             return 1 if bad else 0
+        if 'epystruct' in case:
+            o = lib.run_impl_worker('c09_epystruct.py', [case['epystruct']])[0]
+            print('docstring:'); print(case['epystruct'])
+            print('tokens :', o['tokens']); print('tree   :', o['tree']); print('errors :', o['errors'], o.get('exc') or '')
+            print('see the violation record for the property statement')
+            return 1
+        if 'rstfields' in case:
+            o = lib.run_impl_worker('c09_rstfields.py', [case['rstfields']])[0]
+            print('docstring:'); print(case['rstfields'])
+            print('fields in :', json.dumps(o['in'])[:1500]); print('fields out:', json.dumps(o['out'])[:1500])
+            print('errors    :', o['errors'], o.get('exc') or '')
+            print('see the violation record for the property statement')
+            return 1
+        if 'extract' in case:
+            c = case['extract']
+            o = lib.run_impl_worker('c09_extract.py', [c])[0]
+            fs = oracle_extract(c, o)
+            print('input  :', json.dumps(c)); print('attrs  :', o['attrs']); print('reports:', o['reports'], o.get('exc') or '')
+            for f in fs:
+                print('property:', f['what'])
+            if not fs:
+                print('property: holds on this input')
+            return 1 if fs else 0
         if 'inline' in case:
             c = case['inline']
             o = lib.run_impl_worker('c09_epyinline.py', [c['text']])[0]
